@@ -499,6 +499,9 @@ func oracleC14(c *oracleCfg) *report {
 		// that a verdict which depends on earlier calls (a cache keyed on part of the input) shows up
 		li.IsSQLi(s + " union select 1,2 from t --")
 		li.IsSQLi("1 union select " + s)
+		if i := strings.IndexByte(s, ' '); i > 0 {
+			li.IsSQLi(s[:i] + " union select 1,2 from t --")
+		}
 		ok, fp, st := li.VerifIsSQLi(s)
 		if st != "" || ok || fp != "" {
 			r.fail("benign-reported-"+fam, s, fmt.Sprintf("(%v,%q) %s", ok, fp, st))
@@ -555,6 +558,18 @@ func enumC14(c *oracleCfg, chk func(fam, s string, nt bool)) {
 				parts[j] = num()
 			} else {
 				parts[j] = word()
+			}
+		}
+		if rng.Intn(10) == 0 { // a long leading token (longer than any fixed-size window)
+			if rng.Intn(2) == 0 {
+				parts[0] = strings.Repeat(num(), 12)
+			} else {
+				for len(parts[0]) < 64 {
+					parts[0] += word()
+				}
+				if comp[strings.ToUpper(parts[0])] {
+					parts[0] += "_x"
+				}
 			}
 		}
 		chk("core", strings.Join(parts, " "), k >= 2)
